@@ -102,20 +102,22 @@ Qed.
 
 Lemma do_getcode_spec m a : Inv m ->
   let '(m2, x) := do_getcode m a in
-  exists m1 o, got_ok m a m1 o /\ same_views m1 m2 /\ s_chg m2 = s_chg m1 /\ x = SVal None.
+  exists m1 o, got_ok m a m1 o /\ same_views m1 m2 /\ s_chg m2 = s_chg m1 /\ x = SVal None /\
+               aget a (s_objs m2) <> None.
 Proof.
   intro I. unfold do_getcode. pose proof (get_obj_ok m a I) as G.
   destruct (get_obj m a) as [m1 o]. simpl in G.
   pose proof (inv_objs m1 (go_inv _ _ _ _ G) a o (go_obj _ _ _ _ G)) as Ok.
   rewrite (obj_code_none m1 a o Ok).
-  exists m1, o. split; [exact G|]. split; [| split; reflexivity].
-  apply (put_same_obj_views m1 a o o); try assumption; try reflexivity; apply G.
+  exists m1, o. split; [exact G|]. split; [| split; [reflexivity | split; [reflexivity|]]].
+  - apply (put_same_obj_views m1 a o o); try assumption; try reflexivity; apply G.
+  - rewrite put_obj_objs, N.eqb_refl. discriminate.
 Qed.
 
 Lemma do_getst_spec m a k : Inv m ->
   let '(m2, x) := do_getst m a k in
   exists m1 o v, got_ok m a m1 o /\ same_views m1 m2 /\ s_chg m2 = s_chg m1 /\
-                 x = SGet (negb (is_nil v)) v /\ nb v = cur_st m a k.
+                 x = SGet (negb (is_nil v)) v /\ nb v = cur_st m a k /\ aget a (s_objs m2) <> None.
 Proof.
   intro I. unfold do_getst. pose proof (get_obj_ok m a I) as G.
   destruct (get_obj m a) as [m1 o]. simpl in G.
@@ -123,10 +125,11 @@ Proof.
   pose proof (obj_get_state_spec m1 a o k Ok) as S.
   destruct (obj_get_state m1 a o k) as [o1 v].
   destruct S as [Ok1 [Hv [_ [Hd [Hor [Hdi Hst]]]]]].
-  exists m1, o, v. split; [exact G|]. split; [| split; [reflexivity | split; [reflexivity|]]].
+  exists m1, o, v. split; [exact G|]. split; [| split; [reflexivity | split; [reflexivity | split]]].
   - apply (put_same_obj_views m1 a o o1); try assumption; try apply G.
     unfold cur_acct. rewrite Hdi, Hor. reflexivity.
   - rewrite Hv, <- (go_cur_st _ _ _ _ G a k). symmetry. apply cur_st_at. apply G.
+  - rewrite put_obj_objs, N.eqb_refl. discriminate.
 Qed.
 
 (** * writers *)
@@ -357,4 +360,137 @@ Proof.
   - exists m1, o. split; [exact G|]. split.
     + simpl. rewrite Hc, obj_nonce_view. reflexivity.
     + simpl. rewrite aget_aput, N.eqb_refl. discriminate.
+Qed.
+
+(** * account objects only ever gain origin entries (until a Clear) *)
+Definition ost_sub (o o' : obj) : Prop := forall k, kget k (o_ost o) <> None -> kget k (o_ost o') <> None.
+Definition objs_mono (m m' : st) : Prop :=
+  forall a o, aget a (s_objs m) = Some o -> exists o', aget a (s_objs m') = Some o' /\ ost_sub o o'.
+
+Lemma objs_mono_refl m : objs_mono m m.
+Proof. intros a o H. exists o. split; [exact H | intros k Hk; exact Hk]. Qed.
+
+Lemma objs_mono_trans m1 m2 m3 : objs_mono m1 m2 -> objs_mono m2 m3 -> objs_mono m1 m3.
+Proof.
+  intros H1 H2 a o Ha. destruct (H1 a o Ha) as [o' [Ha' S1]]. destruct (H2 a o' Ha') as [o'' [Ha'' S2]].
+  exists o''. split; [exact Ha'' | intros k Hk; apply S2, S1, Hk].
+Qed.
+
+Lemma objs_mono_put m a o o' : aget a (s_objs m) = Some o -> ost_sub o o' -> objs_mono m (put_obj m a o').
+Proof.
+  intros Ha Hs b ob Hb. rewrite put_obj_objs. destruct (b =? a) eqn:E.
+  - apply N.eqb_eq in E. subst b. rewrite Ha in Hb. inversion Hb; subst ob. exists o'. split; [reflexivity | exact Hs].
+  - exists ob. split; [exact Hb | intros k Hk; exact Hk].
+Qed.
+
+Lemma objs_mono_put_new m a o' : aget a (s_objs m) = None -> objs_mono m (put_obj m a o').
+Proof.
+  intros Ha b ob Hb. rewrite put_obj_objs. destruct (b =? a) eqn:E.
+  - apply N.eqb_eq in E. subst b. congruence.
+  - exists ob. split; [exact Hb | intros k Hk; exact Hk].
+Qed.
+
+Lemma objs_mono_frame m m' m'' : s_objs m'' = s_objs m' -> objs_mono m m' -> objs_mono m m''.
+Proof. intros H M a o Ha. rewrite H. apply M. exact Ha. Qed.
+
+Lemma got_objs_mono m a m1 o : got m a m1 o -> objs_mono m m1.
+Proof.
+  intros [o' Hp | o' Ha Hl | Ha Hl].
+  - apply objs_mono_refl.
+  - apply objs_mono_put_new. exact Ha.
+  - eapply objs_mono_frame; [| apply (objs_mono_put_new m a (new_obj m) Ha)]. reflexivity.
+Qed.
+
+Lemma obj_get_state_ost m a o k : ost_sub o (fst (obj_get_state m a o k)).
+Proof.
+  unfold obj_get_state. destruct (kget k (o_dst o)); [intros k' H; exact H|].
+  destruct (kget k (o_ost o)); [intros k' H; exact H|].
+  intros k' H. simpl. rewrite kget_kput. destruct (bytes_eqb k' k); [discriminate | exact H].
+Qed.
+
+Lemma obj_get_state_ost_only m a o k : o_dst (fst (obj_get_state m a o k)) = o_dst o.
+Proof.
+  unfold obj_get_state. destruct (kget k (o_dst o)); [reflexivity|].
+  destruct (kget k (o_ost o)); reflexivity.
+Qed.
+
+Lemma got_obj_at m a m1 o : got m a m1 o -> aget a (s_objs m1) = Some o.
+Proof.
+  intros [o' Hp | o' Ha Hl | Ha Hl].
+  - exact Hp.
+  - rewrite put_obj_objs, N.eqb_refl. reflexivity.
+  - change (aget a (s_objs (put_obj m a (new_obj m))) = Some (new_obj m)). rewrite put_obj_objs, N.eqb_refl. reflexivity.
+Qed.
+
+Lemma do_getbal_mono m a : objs_mono m (fst (do_getbal m a)).
+Proof.
+  unfold do_getbal. pose proof (get_obj_got m a) as G. destruct (get_obj m a) as [m1 o]. simpl in *.
+  eapply got_objs_mono; exact G.
+Qed.
+Lemma do_getnonce_mono m a : objs_mono m (fst (do_getnonce m a)).
+Proof.
+  unfold do_getnonce. pose proof (get_obj_got m a) as G. destruct (get_obj m a) as [m1 o]. simpl in *.
+  eapply got_objs_mono; exact G.
+Qed.
+
+Lemma obj_code_ost m a o : ost_sub o (fst (obj_code m a o)).
+Proof.
+  unfold obj_code. destruct (o_dcode o); [intros k H; exact H|]. destruct (o_ocode o); [intros k H; exact H|].
+  destruct (negb (ch_nonempty (obj_ch o))); intros k H; exact H.
+Qed.
+
+Lemma do_getcode_mono m a : objs_mono m (fst (do_getcode m a)).
+Proof.
+  unfold do_getcode. pose proof (get_obj_got m a) as G. destruct (get_obj m a) as [m1 o]. simpl in G.
+  pose proof (obj_code_ost m1 a o) as S. destruct (obj_code m1 a o) as [o1 c]. simpl in *.
+  eapply objs_mono_trans; [eapply got_objs_mono; exact G|].
+  apply (objs_mono_put m1 a o o1); [eapply got_obj_at; exact G | exact S].
+Qed.
+
+Lemma do_getst_mono m a k : objs_mono m (fst (do_getst m a k)).
+Proof.
+  unfold do_getst. pose proof (get_obj_got m a) as G. destruct (get_obj m a) as [m1 o]. simpl in G.
+  pose proof (obj_get_state_ost m1 a o k) as S. destruct (obj_get_state m1 a o k) as [o1 v]. simpl in *.
+  eapply objs_mono_trans; [eapply got_objs_mono; exact G|].
+  apply (objs_mono_put m1 a o o1); [eapply got_obj_at; exact G | exact S].
+Qed.
+
+Lemma do_setst_mono m a k v : objs_mono m (do_setst cfg_fixed m a k v).
+Proof.
+  unfold do_setst, chg_append. cbn [d_orphan_changer cfg_fixed andb].
+  pose proof (get_obj_got m a) as G. destruct (get_obj m a) as [m1 o]. simpl in G.
+  pose proof (obj_get_state_ost m1 a o k) as S. destruct (obj_get_state m1 a o k) as [o1 prev]. simpl in S.
+  eapply objs_mono_trans; [eapply got_objs_mono; exact G|].
+  eapply objs_mono_frame; [| apply (objs_mono_put m1 a o (set_dst o1 (kput k v (o_dst o1))));
+                              [eapply got_obj_at; exact G | exact S]].
+  reflexivity.
+Qed.
+
+Lemma do_addst_mono m a k v : objs_mono m (do_addst cfg_fixed m a k v).
+Proof.
+  unfold do_addst. cbn [d_addstate_origin cfg_fixed].
+  pose proof (get_obj_got m a) as G. destruct (get_obj m a) as [m1 o]. simpl in G.
+  pose proof (obj_get_state_ost m1 a o k) as S.
+  eapply objs_mono_trans; [eapply got_objs_mono; exact G|].
+  apply (objs_mono_put m1 a o); [eapply got_obj_at; exact G | exact S].
+Qed.
+
+Lemma do_setbal_mono m a z : objs_mono m (do_setbal cfg_fixed m a z).
+Proof.
+  unfold do_setbal, chg_append. cbn [d_orphan_changer cfg_fixed andb].
+  pose proof (get_obj_got m a) as G. destruct (get_obj m a) as [m1 o]. simpl in G.
+  eapply objs_mono_trans; [eapply got_objs_mono; exact G|].
+  eapply objs_mono_frame; [| apply (objs_mono_put m1 a o (set_dirty o (Some (with_bal (cur_acct o) z))));
+                              [eapply got_obj_at; exact G | intros k H; exact H]].
+  reflexivity.
+Qed.
+
+Lemma do_setnonce_mono m a n : objs_mono m (do_setnonce cfg_fixed m a n).
+Proof.
+  unfold do_setnonce, chg_append. cbn [d_orphan_changer cfg_fixed andb].
+  pose proof (get_obj_got m a) as G. destruct (get_obj m a) as [m1 o]. simpl in G.
+  eapply objs_mono_trans; [eapply got_objs_mono; exact G|].
+  eapply objs_mono_frame; [| apply (objs_mono_put m1 a o (set_dirty o (Some (with_nonce (cur_acct o) n))));
+                              [eapply got_obj_at; exact G | intros k H; exact H]].
+  reflexivity.
 Qed.
